@@ -140,7 +140,7 @@ def build_sampler(conf: dict, rec: psrun.Recorder | None, out_dir=None):
 
 
 def record_run(conf: dict, n_total=32, seed=0, label="", posterior_flags=None, save_every=None, out_dir=None,
-               resume=None, rec=None, sampler=None):
+               resume=None, rec=None, sampler=None, manual_iters=0):
     """Run the real sampler once under the recorder. Returns (recorder, sampler, trace)."""
     c = dict(DEFAULTS)
     c.update(conf)
@@ -155,6 +155,8 @@ def record_run(conf: dict, n_total=32, seed=0, label="", posterior_flags=None, s
         try:
             sampler.run(n_total=n_total, progress=False, save_every=save_every, resume_state_path=resume)
             ok = True
+            for _ in range(manual_iters):  # the caller keeps iterating with the public sample() after run() returned
+                sampler.sample()
         except Exception as ex:  # an exception escaping run() is an event no spec action matches
             rec.raised(ex)
             ok = False
